@@ -9,9 +9,10 @@
 //!   `categorize_and_filter_events` + `update_sources` + `compile` of the SAME `CompilerState`
 //!   (optionally a pico garbage collection in between), and the result is compared with a FRESH
 //!   `CompilerState` compiling a copy of the resulting tree.  Answer, per step:
-//!     `fs:<tree on disk>  ev:<categorised events>  us:ok|us:err:<class>  db:<iso literal map>
-//!      sc:<schema content>  ex:<extension map>  fr:<the same three of the fresh state>|fr:init-error:<class>
-//!      A:same | A:diff:<result|diags|artifacts>`
+//!     `fs:<tree on disk>  ev:<categorised events>|ev:none  us:ok|us:none|us:err:<classes>
+//!      db:<iso literal map>|<schema content>|<extension map>
+//!      fr:<the same three of the fresh state>|fr:init-error:<class>   A:same | A:diff:<result|diags|artifacts>`
+//!   (the first `fs:` / `db:` pair belongs to the initial batch compile),
 //!   and `end` after a fatal `update_sources` error (the real watch loop exits there).
 //! * `failkeeps`: request `failkeeps.run <projseed> <batch|watch>`, see `failkeeps.rs`.
 //!
